@@ -25,7 +25,10 @@ def nontrivial(sh):
 def shadow_pattern(g, rng):
     """an enclosing block that refers to a name AFTER a nested block defined and used the same name (and variations:
     several nested blocks, definitions at every level, chains of variable-to-variable references)"""
-    if rng.random() > 0.45:
+    k = rng.random()
+    if k < 0.2:
+        return g.mixin_program()          # variables as mixin arguments (named like the callee's parameters, forwarded, swapped)
+    if k < 0.55:
         return g.sheet(nunits=rng.choice([1, 1, 2, 3]), depth=rng.randint(1, 3))
     names = ['@a', '@b', '@c']
     vals = ['1px', '2em', 'red', '#abc', '3px solid', '10%', 'bold']
